@@ -148,7 +148,8 @@ for (fam, B) in (("skinny128", 16), ("skinny64", 8), ("mantis", 8)):
         J(c + "swap_modes", ["C03", "C14"], HP, "h_swap_modes", enforce=P + "_swap_modes", replace=["mantis_swap_modes"],
           must_have=PC, replay=R + "_life")
         J(c + "crypt", ["C07", "C09", "C14", "C03"], HP, "h_crypt", enforce=P + "_crypt",
-          replace=["_mantis_parallel_crypt_vec128", "mantis_ecb_crypt_tweaked"], must_have=LC + PC + ["ptr-norm"], replay=R, timeout=1800,
+          replace=["_mantis_parallel_crypt_vec128", "mantis_ecb_crypt_tweaked", "mantis_set_tweak", "mantis_ecb_crypt", "mantis_set_key", "mantis_swap_modes"],
+          must_have=LC + PC + ["ptr-norm"], replay=R, timeout=1800,
           note="coverage layer: block i processed under tweak i, exactly once, inside [0,size); real indirect call through the vtable")
     else:
         vec = ["_%s_parallel_%%s_vec128" % fam] + (["_%s_parallel_%%s_vec256" % fam] if fam == "skinny128" else [])
@@ -219,6 +220,15 @@ for (fn, fam, P, B, LANES, c, fl, EFN, INC, XB, R) in SIMD:
       note="coverage layer with the lanes-consecutive representation invariant; size <= 2^40 symbolic")
     J(c + "eblock", ["C05", "C06", "C09", "C11"], HS, "h_eblock", enforce=EFN, cflags=fl, must_have=LC + PC, replay=R, timeout=2400,
       note="layer A: arbitrary witness lane of the keystream buffer == spec encryption of that lane's counter block (lock-step)")
+    # C06 stream-position clause (known finding D5 on the current tree)
+    if fam == "mantis":
+        c06 = [("set_key", ["VERIF_CASE_LEN=16"], ["mantis_set_key"]), ("set_tweak", [], ["mantis_set_tweak"])]
+    else:
+        c06 = [("set_key", [], [fam + "_set_key"]), ("set_tweaked_key", [], [fam + "_set_tweaked_key"]), ("set_tweak", [], [fam + "_set_tweak"])]
+    for (op, dfs, rep) in c06:
+        J(c + op + ".c06", ["C06"], HS, "h_" + op, enforce=P + "_" + op, cflags=fl, defs=dfs + ["VERIF_C06_STREAM=1"], replace=rep,
+          must_have=PC, replay="midstream",
+          note="after a key/tweak change in mid-stream the next keystream block must be the one the generic back end uses (next block, not next batch)")
     if fam == "mantis":
         for (tag, dfs) in ((".len16", ["VERIF_CASE_LEN=16"]), (".invalid", ["VERIF_CASE_INVALID=1"])):
             J(c + "set_key" + tag, ["C10", "C14", "C06"], HS, "h_set_key", enforce=P + "_set_key", cflags=fl, defs=dfs,
@@ -248,6 +258,16 @@ for h, nt in (("h_skinny128_round_inverse", "all 2^(128+64) (state, round key) p
     J("lemma." + h[2:], ["C03"], "h_lemmas.c", h, loops=False, must_have=["C03 lemma"], replay=None, functions=["spec (generated)"],
       note="loop-free, fully symbolic: " + nt)
 
+# ------------------------------------------------------------------ C09: single-block functions under every overlap offset / alignment
+for (pre, H, R, fns) in (("s128.", "h_skinny128_cipher.c", "skinny128", ["encrypt", "decrypt"]), ("s64.", "h_skinny64_cipher.c", "skinny64", ["encrypt", "decrypt"])):
+    for d in fns:
+        J(pre + "overlap_" + d, ["C09"], H, "h_overlap_" + d, enforce="verif_overlap_" + d, must_have=LC + PC, replay=R, timeout=2400,
+          tier="quick" if pre == "s64." else "thorough", functions=[R + "_ecb_" + d],
+          note="input = buf+a, output = buf+b in one object, a,b symbolic: every overlap and every alignment; writes confined to output[0..block)")
+for d in ("crypt", "crypt_tweaked"):
+    J("m.overlap_" + d, ["C09"], "h_mantis_cipher.c", "h_overlap_" + d, enforce="verif_overlap_" + d, must_have=LC + PC, replay="mantis", timeout=2400,
+      tier="thorough", functions=["mantis_ecb_" + d], note="every overlap offset and alignment of input/output")
+
 
 # ------------------------------------------------------------------ loop handling policy
 # Jobs whose enforced function (with its inlined callees) carries NO loop contract are run WITHOUT
@@ -258,11 +278,74 @@ for h, nt in (("h_skinny128_round_inverse", "all 2^(128+64) (state, round key) p
 # reports as UNDECIDED, never as a violation.
 import re as _re
 _LOOPY = _re.compile(r"(ecb_encrypt|ecb_decrypt|set_tk[123]$|xor_tk1$|\.def_encrypt$|^v\w+\.encrypt$|^p\w+\.(encrypt|decrypt|crypt)$|"
-                     r"^i\.(cleanse|xor)$|ecb_crypt|\.eblock$|^pv\w+\.|^lemma\.)")
+                     r"^i\.(cleanse|xor)$|ecb_crypt|overlap_|\.eblock$|^pv\w+\.|^lemma\.)")
 for _j in JOBS:
     if _j.loops and not _LOOPY.search(_j.id):
         _j.loops = False
         _j.unwind = _j.unwind or 70
+
+
+# ------------------------------------------------------------------ C12: the same contracts under the other compile-time paths
+# (hook H1: -DSKINNY_C_VERIF -DSKINNY_VERIF_<switch>=v).  Every path is proved against the SAME specification,
+# hence all paths compute the same function.
+import copy as _copy
+_CFG_JOBS = ["ecb_encrypt", "ecb_decrypt", "set_tk1", "set_tk2", "set_tk3", "xor_tk1"]
+_cfgs = [(w, u, e) for w in (0, 1) for u in (0, 1) for e in (0, 1) if (w, u, e) != (1, 1, 1)]
+_quick_cfgs = {(0, 1, 1), (1, 0, 1), (0, 0, 0)}
+for (w, u, e) in _cfgs:
+    tag = "@w%du%de%d" % (w, u, e)
+    dfs = ["SKINNY_C_VERIF=1", "SKINNY_VERIF_64BIT=%d" % w, "SKINNY_VERIF_UNALIGNED=%d" % u, "SKINNY_VERIF_LITTLE_ENDIAN=%d" % e]
+    base_ids = ["s128." + x for x in _CFG_JOBS] + ["s64." + x for x in _CFG_JOBS] + \
+               ["m.ecb_crypt", "m.ecb_crypt_tweaked", "m.set_key.len16", "m.swap_modes", "i.xor128", "i.xor64", "i.inc128", "i.inc64"]
+    for bid in base_ids:
+        b = [j for j in JOBS if j.id == bid][0]
+        nj = _copy.copy(b)
+        nj.id = bid + tag
+        nj.props = ["C12"]
+        nj.defs = list(b.defs) + dfs
+        nj.tier = "quick" if (w, u, e) in _quick_cfgs and not bid.endswith("set_tk1") else "thorough"
+        nj.note = (b.note + "; " if b.note else "") + "configuration 64BIT=%d UNALIGNED=%d LITTLE_ENDIAN=%d" % (w, u, e)
+        JOBS.append(nj)
+
+
+# C18: frames of the read-only block operations (empty on the shared schedule / object) and of the CPU probes
+for _j in JOBS:
+    if _re.search(r"^(s128|s64)\.ecb_(en|de)crypt$|^m\.ecb_crypt|^p(128|64|m)\.(encrypt|decrypt|crypt)$|^pv\w+\.|^cpu\.", _j.id) and "C18" not in _j.props:
+        _j.props.append("C18")
+
+
+# ------------------------------------------------------------------ tiers: quick = representatives of every case-split family
+# (first, last and the boundaries), thorough = every case.  The union of the thorough cases is the full domain.
+def _quick_case(jid):
+    m = _re.search(r"\.(set_counter|set_tweak)\.len(\d+)$", jid)
+    if m:
+        B = 16 if ("128" in jid.split(".")[0]) else 8
+        n = int(m.group(2))
+        return n in ((0, 1, B - 1, B) if m.group(1) == "set_counter" else (1, B // 2, B))
+    m = _re.search(r"\.set_key_inner\.([kt])(\d+)$", jid)
+    if m:
+        B = 16 if jid.startswith("s128") else 8
+        n = int(m.group(2))
+        return n in ((B, B + 1, 2 * B - 1, 2 * B, 2 * B + 1, 3 * B - 1, 3 * B) if m.group(1) == "k" else (B, B + 1, 2 * B - 1, 2 * B))
+    return True
+
+
+for _j in JOBS:
+    if not _quick_case(_j.id.split("@")[0]):
+        _j.tier = "thorough"
+    if _j.id.startswith("v128b.") and _re.search(r"\.(set_counter|encrypt|eblock)", _j.id) and not _j.id.endswith((".len0", ".len16")):
+        _j.tier = "thorough"   # the 256-bit back end: life cycle, lane increment and boundary cases stay in quick
+
+    if _re.match(r"^pv\w+\.|^v\w+\.(eblock|encrypt)$|\.def_encrypt$", _j.id):
+        # the slow vector / coverage proofs: every-change tier only for the properties they carry
+        _j.quick_only_for = {"C07", "C05"}
+    if _j.id == "pv128a.encrypt":
+        _j.tier = "thorough"   # 8.5 min on one core (sbox_four interleaves four vectors); its decrypt twin and the other ciphers' vector functions stay in quick
+
+# C09: the key / tweak / counter readers are bound to the exact extent the arguments announce
+for _j in JOBS:
+    if _re.search(r"\.(set_tk[123]|xor_tk1|set_key_inner\.\w+|set_key(\.\w+)?|set_tweaked_key|set_tweak\.\w+|set_counter\.\w+)$", _j.id.split("@")[0]) and "C09" not in _j.props and "@" not in _j.id and not _j.id.endswith(".c06"):
+        _j.props.append("C09")
 
 
 def by_id(i):
